@@ -87,14 +87,24 @@ func Centroid(g geom.Geom) (geom.Point, error) {
 	var A, xA, yA float64
 	switch g.(type) {
 	case geom.Polygon:
+		// The sums are taken about a vertex of the polygon rather than about
+		// the coordinate origin: far from the origin the products of absolute
+		// coordinates cancel catastrophically.
+		var o geom.Point
+		for _, r := range g.(geom.Polygon) {
+			if len(r) > 0 {
+				o = r[0]
+				break
+			}
+		}
 		for _, r := range g.(geom.Polygon) {
 			a := area(r)
 			cx, cy := 0., 0.
 			for i := 0; i < len(r)-1; i++ {
-				cx += (r[i].X + r[i+1].X) *
-					(r[i].X*r[i+1].Y - r[i+1].X*r[i].Y)
-				cy += (r[i].Y + r[i+1].Y) *
-					(r[i].X*r[i+1].Y - r[i+1].X*r[i].Y)
+				x0, y0 := r[i].X-o.X, r[i].Y-o.Y
+				x1, y1 := r[i+1].X-o.X, r[i+1].Y-o.Y
+				cx += (x0 + x1) * (x0*y1 - x1*y0)
+				cy += (y0 + y1) * (x0*y1 - x1*y0)
 			}
 			cx /= 6 * a
 			cy /= 6 * a
@@ -102,7 +112,7 @@ func Centroid(g geom.Geom) (geom.Point, error) {
 			xA += cx * a
 			yA += cy * a
 		}
-		return geom.Point{xA / A, yA / A}, nil
+		return geom.Point{xA/A + o.X, yA/A + o.Y}, nil
 	default:
 		return geom.Point{}, newUnsupportedGeometryError(g)
 	}
